@@ -9,6 +9,7 @@ package c11
 
 import (
 	"context"
+	"encoding/json"
 	"io"
 	"log"
 	"sort"
@@ -221,3 +222,67 @@ func c11E2EFamilies() []c11Case {
 		{Kind: "e2e", Family: "e2e-plugin-4-round-history-1s", E2E: &e2eCfg{Rounds: 30, Period: sec, Hist: 4, Every: 3}},
 	}
 }
+
+// runCarry: "a proposal surfaced in an outcome is removed from the node's own pending set so it is not proposed
+// again", through the plug-in's Observation (real pre-build hooks, real metadata store, real recovery-proposal and
+// sampling flows).  The outcome that surfaces the work is handed to Observation several times, byte for byte (idle
+// rounds carry an outcome over unchanged), and the node's own recoverer proposes the same work AFTER the hooks ran
+// on that outcome for the first time.  The work is in the round history, so no observation may propose it.
+func runCarry(t *testing.T, viol *[]directViolation) int {
+	evals := 0
+	for variant := 0; variant < 3; variant++ {
+		synctest.Test(t, func(t *testing.T) {
+			nd := NewNode(t, NodeOpts{N: 4, F: 1})
+			defer func() {
+				time.Sleep(2 * time.Second)
+				synctest.Wait()
+				nd.Plugin.Close()
+				synctest.Wait()
+			}()
+			mk := func(n int) common.UpkeepPayload {
+				p := e2eProposal(1, 7000+n, 900)
+				return common.UpkeepPayload{UpkeepID: p.UpkeepID, Trigger: p.Trigger, WorkID: p.WorkID}
+			}
+			w, other := mk(variant), mk(100+variant)
+			surf := common.CoordinatedBlockProposal{UpkeepID: w.UpkeepID, Trigger: w.Trigger, WorkID: w.WorkID}
+			hist := [][]common.CoordinatedBlockProposal{{}, {surf}}
+			if variant == 1 {
+				hist = [][]common.CoordinatedBlockProposal{{surf}}
+			}
+			raw, _ := ocr2keepersv3.AutomationOutcome{SurfacedProposals: hist}.Encode()
+			observe := func(seq uint64, what string) {
+				evals++
+				ob, err := nd.Plugin.Observation(context.Background(), ocr3types.OutcomeContext{SeqNr: seq, PreviousOutcome: append([]byte(nil), raw...)}, nil)
+				if err != nil {
+					*viol = append(*viol, directViolation{"carried-outcome", what + ": Observation failed: " + err.Error()})
+					return
+				}
+				var o ocr2keepersv3.AutomationObservation
+				_ = gojsonUnmarshal(ob, &o)
+				for _, p := range o.UpkeepProposals {
+					if p.WorkID == w.WorkID {
+						*viol = append(*viol, directViolation{"carried-outcome", what + ": the observation proposes work that the previous outcome lists as surfaced"})
+					}
+				}
+			}
+			if variant != 2 {
+				observe(2, "first observation on the outcome")
+			}
+			// the node's own recoverer proposes the surfaced work (and something else) only now
+			nd.Recov.Push(w, other)
+			time.Sleep(2500 * time.Millisecond)
+			synctest.Wait()
+			observe(3, "observation after the node proposed the work itself, same outcome carried over")
+			time.Sleep(1500 * time.Millisecond)
+			synctest.Wait()
+			observe(4, "a further idle round on the same outcome")
+			nd.Recov.Push(w)
+			time.Sleep(2500 * time.Millisecond)
+			synctest.Wait()
+			observe(5, "proposed once more, same outcome carried over")
+		})
+	}
+	return evals
+}
+
+func gojsonUnmarshal(b []byte, v any) error { return json.Unmarshal(b, v) }
